@@ -4,6 +4,9 @@
 // ten clients - interleaved with credential rotations at the storage and other
 // token-endpoint traffic - are executed against a fresh world on both routers and
 // judged by a sequential reference model written from the property statement.
+// Part B (ctxend.go): the request context of a conforming exchange ends at every
+// yield point of its trace, against three storage models; the code still yields
+// tokens at most once.
 package main
 
 import (
@@ -708,11 +711,12 @@ func runHistory(run *ev.Run, caseIdx int, router int) {
 
 func main() {
 	run := ev.Start("C04", "exploration")
-	run.SetRule("random histories (5-40 ops) of start/login/callback/exchange over clients {web,web2 basic; post; native public; jwt,jwt2,jwt3 private_key_jwt (jwt3's key is registered under the key ID jwt uses); oddly registered nativesec,uasec,webpub}, interleaved with rotations of a client's key (same key ID) or secret at the storage and jwt-bearer grants of a service user, each executed on both routers in a fresh world; credentials presented: own, wrong, none, stale (what the storage held before a rotation), forged (an assertion naming the client, made by another holder of a registered key - preferably one that has used the token endpoint before - under its own / the victim's / no / an unknown key ID, iss/sub mixed); an exchange is non-trivial; distinct = distinct vectors (router, code kind, client auth method, same-client, credential kind, redirect_uri kind, verifier kind/challenge method, consumed)")
+	run.SetRule("random histories (5-40 ops) of start/login/callback/exchange over clients {web,web2 basic; post; native public; jwt,jwt2,jwt3 private_key_jwt (jwt3's key is registered under the key ID jwt uses); oddly registered nativesec,uasec,webpub}, interleaved with rotations of a client's key (same key ID) or secret at the storage and jwt-bearer grants of a service user, each executed on both routers in a fresh world; credentials presented: own, wrong, none, stale (what the storage held before a rotation), forged (an assertion naming the client, made by another holder of a registered key - preferably one that has used the token endpoint before - under its own / the victim's / no / an unknown key ID, iss/sub mixed); one exchange in eight runs under a storage-method fault, one in ten with its request context ending (cancelled / deadline) exactly at its k-th storage call, k=1..10, against a storage that from then on gives up on every call / on that call only / never looks at the context; an exchange is non-trivial; distinct = distinct vectors (router, code kind, client auth method, same-client, credential kind, redirect_uri kind, verifier kind/challenge method, consumed). Part B (case numbers from 10000000): for 6 plainly configured flows (web Basic, web Basic+S256+refresh token, post+plain, native public+S256, private_key_jwt, private_key_jwt+S256+refresh token) x both routers the yield-point trace (internal/sched: every span start/end of the library, every storage call, every getter of client and auth request; 53-65 points) of the conforming exchange is recorded and for EVERY point of it a fresh world parks the exchange there, ends its request context (cancelled | deadline) and switches the storage to one of the three models (quick: full product at storage calls, alternating elsewhere; thorough: full product); then the same request is repeated with a live context (twice if that one yields tokens): at most one of the answers may carry tokens, and those carry subject, client, scopes, nonce of the request; distinct = (router, flow, point, context kind, storage model)")
 	run.Assume("vstore policy: DeleteAuthRequest removes the request and its codes; AuthRequestByCode fails for unknown codes",
 		"after a failed attempt on a code later success is grey (burning on failure would be legal)",
 		"the storage is the only authority on a client's credentials at the time of the request: a caller is authenticated as client X by X's secret as registered now, or by an assertion iss=sub=X signed with the key the storage holds now for (X, kid of the assertion); a replaced key or secret, and an assertion made with a key registered for somebody else, authenticate nobody whatever the provider accepted earlier",
-		"one exchange in eight runs under an injected storage-method fault; its own answer is C10's business, but a code that yielded tokens under the fault counts as consumed and a later replay must be refused")
+		"one exchange in eight runs under an injected storage-method fault; its own answer is C10's business, but a code that yielded tokens under the fault counts as consumed and a later replay must be refused",
+		"a request context may end (client gone, per-request timeout, server shutdown) at any moment of an exchange; a storage may answer a call made with an ended context with that context's error (bare or wrapped) and no effect, or ignore the context; whatever the storage does, if the answer of that request carried tokens the code is spent (statement: after a successful exchange the same code never yields tokens again); which of several requests presenting a code is the one answered with tokens is left open")
 	run.Mandatory("success:provider", "success:legacy")
 	for _, rn := range opdrv.RouterNames {
 		run.Mandatory("forged-assertion-alone:"+rn, "forged-assertion-after-forger-spoke:"+rn, "stale-key-alone:"+rn, "stale-secret-alone:"+rn,
